@@ -240,6 +240,25 @@ var c08Culprits = []struct{ name, before, culprit, after string }{
 	{"let-annotation-mismatch", "fn main() {\n    ", "let a: int = \"s\";", "\n}\n"},
 	{"duplicate-function", "fn f() {}\n", "fn f() {}", "\nfn main() {}\n"},
 	{"iterate-non-iterable", "fn main() {\n    for x in ", "true", " { }\n}\n"},
+	{"while-condition-not-bool", "fn main() {\n    while ", "1", " { }\n}\n"},
+	{"while-condition-string", "fn main() {\n    let s = \"s\";\n    while ", "s", " { }\n}\n"},
+	// a function value where a value of another type is expected (forgotten call parentheses)
+	{"while-condition-function-name", "fn ready() -> bool { true }\nfn main() {\n    while ", "ready", " { }\n}\n"},
+	{"while-condition-closure", "fn main() {\n    let c = fn() -> bool { true };\n    while ", "c", " { }\n}\n"},
+	{"if-condition-function-name", "fn ready() -> bool { true }\nfn main() {\n    if ", "ready", " { }\n}\n"},
+	{"if-condition-closure", "fn main() {\n    let c = fn() -> bool { true };\n    if ", "c", " { println(1); }\n}\n"},
+	{"else-if-condition-function-name", "fn ready() -> bool { true }\nfn main() {\n    if false { } else if ", "ready", " { }\n}\n"},
+	{"operand-function-name", "fn ready() -> int { 1 }\nfn main() {\n    println(", "ready + 1", ");\n}\n"},
+	{"argument-function-name", "fn ready() -> int { 1 }\nfn f(a: int) -> int { a }\nfn main() {\n    println(f(", "ready", "));\n}\n"},
+	{"let-annotation-function-name", "fn ready() -> int { 1 }\nfn main() {\n    ", "let a: int = ready;", "\n}\n"},
+	{"return-function-name", "fn ready() -> int { 1 }\nfn f() -> int {\n    ", "return ready;", "\n}\nfn main() { f(); }\n"},
+	{"index-function-name", "fn ready() -> int { 1 }\nfn main() {\n    let l = [1];\n    println(", "l[ready]", ");\n}\n"},
+	{"iterate-function-name", "fn ready() -> [int] { [1] }\nfn main() {\n    for x in ", "ready", " { }\n}\n"},
+	{"match-on-function-name", "fn ready() -> int { 1 }\nfn main() {\n    ", "match ready { 1 => 2, _ => 3 }", ";\n}\n"},
+	{"negated-function-name", "fn ready() -> bool { true }\nfn main() {\n    println(", "!ready", ");\n}\n"},
+	{"assign-function-name", "fn ready() -> int { 1 }\nfn main() {\n    let a = 1;\n    ", "a = ready", ";\n}\n"},
+	{"range-bound-function-name", "fn ready() -> int { 1 }\nfn main() {\n    for i in ", "0..ready", " { }\n}\n"},
+	{"cast-of-function-name", "fn ready() -> int { 1 }\nfn main() {\n    println(", "ready as int", ");\n}\n"},
 }
 
 var c08Layouts = []struct{ name, prefix string }{
